@@ -1,5 +1,6 @@
 """C19 — import survives a missing, empty or truncated on-disk timezone cache (E3: crash-state enumeration)."""
 import importlib
+import json
 import multiprocessing as mp
 import os
 import pickle
@@ -380,6 +381,24 @@ def run(tier, seed, jobs, deadline, report):
                                   "detail": {"reader_runs_after_writer_ops": i, "writer_ops": [list(o) for o in ops]}},
                                  case={"label": "concurrent:%d" % i, "meta": {"family": "concurrent-first-import", "i": i}},
                                  sub="concurrent-first-import")
+    # two real importers at once: every interleaving of their file operations with at most `bound` preemptions
+    bound = 3 if tier == "thorough" else 2
+    two = two_importers([("missing", {}), ("truncated", {CACHE: complete[:N // 2]})] + ([("empty", {CACHE: b""})] if tier == "thorough" else []),
+                        bound, jobs, ref, t0 + deadline)
+    if not two["complete"]:
+        report.exhaustive = False
+        report.notes.append("deadline hit in the two-importer exploration after %d schedules" % two["schedules"])
+    groups = {}
+    for b in two["bad"]:
+        groups.setdefault((b["initial"], b["problem"]["stage"].split(" of participant")[0], b["problem"]["problem"]), []).append(b)
+    for (ini, stage, prob), bs in groups.items():
+        first = min(bs, key=lambda b: len(b["choices"]))
+        report.add_violation({"cls": {"family": "two-concurrent-first-imports", "initial": ini, "stage": stage, "problem": prob},
+                              "count": len(bs),
+                              "examples": [{"sub": "two-concurrent-first-imports", "case": {"label": "two-importers", "initial": ini, "choices": first["choices"],
+                                                                                           "meta": {"family": "two-concurrent-first-imports"}},
+                                            "expected": "both imports succeed with the reference table; cache complete, nothing left behind",
+                                            "observed": first["problem"], "detail": {"interleaving": first["ops"], "schedules_with_this_outcome": len(bs)}}]})
     # representative states as true subprocess imports of the whole package
     sub_n = 0
     for label, files in [("missing", {}), ("empty", {CACHE: b""}), ("prefix:1", {CACHE: complete[:1]}),
@@ -392,13 +411,16 @@ def run(tier, seed, jobs, deadline, report):
                                   "expected": "python -c 'import dateparser' exits 0 twice; cache complete afterwards",
                                   "observed": v, "detail": {"label": label}},
                                  case={"label": "subprocess:" + label, "meta": {"family": "subprocess-import"}}, sub="subprocess-import")
-    report.evaluations = done + conc + sub_n
-    report.nontrivial = nontriv + conc + sub_n
+    report.evaluations = done + conc + sub_n + two["schedules"]
+    report.nontrivial = nontriv + conc + sub_n + two["schedules"]
     report.samples = [{"label": l, "meta": m, "file_sizes": {k: len(v) for k, v in f.items()}} for (l, f, m) in tl[:6]]
     report.subspaces = [{"name": k, "size": v, "executed": v, "complete": True} for k, v in sorted(fams.items())] + [
         {"name": "concurrent-first-import", "size": conc, "executed": conc, "complete": True},
-        {"name": "subprocess-import", "size": sub_n, "executed": sub_n, "complete": True}]
-    report.extra.update({"crash_states": done, "cache_bytes": N, "shipped_cache_bytes": len(shipped) if shipped else None,
+        {"name": "subprocess-import", "size": sub_n, "executed": sub_n, "complete": True},
+        {"name": "two-concurrent-first-imports (preemption bound %d)" % bound, "size": two["schedules"], "executed": two["schedules"], "complete": two["complete"]}]
+    report.extra.update({"two_importers": {"preemption_bound": bound, "schedules": two["schedules"], "per_initial_state": two["per_initial"],
+                                           "max_scheduling_points": two["max_points"], "outcomes": two["outcomes"]},
+                         "crash_states": done, "cache_bytes": N, "shipped_cache_bytes": len(shipped) if shipped else None,
                          "syscall_trace": [list(o) for o in ops], "pickle_frame_offsets": bounds,
                          "all_byte_cuts": tier == "thorough"})
 
@@ -460,6 +482,121 @@ def concurrent_case(ops, contents, i):
         shutil.rmtree(d, ignore_errors=True)
 
 
+
+# ----------------------------------------------------------------------------- two real importers, all interleavings within a bound
+def _two_importers_child(initial_files, prefix, nthreads=2):
+    """One schedule (runs in a forked child): nthreads real imports on one scratch directory under the I/O scheduler."""
+    from .. import iosched
+    d = tempfile.mkdtemp(prefix="verif-c19t-", dir=SCRATCH)
+    try:
+        skeleton(d)
+        dd = os.path.join(d, "data")
+        for name, data in initial_files.items():
+            with open(os.path.join(dd, name), "wb") as f:
+                f.write(data)
+        before = set(os.listdir(dd))
+        sched = iosched.Sched(d, nthreads)
+        iosched.install(sched, [70001 + i for i in range(nthreads)])
+        try:
+            results = sched.run([lambda: import_alias(d)] * nthreads, prefix)
+        except RuntimeError as e:
+            return {"error": str(e), "trace": [[en, ch, cur, lab] for en, ch, cur, lab in sched.trace]}
+        prob = None
+        for i, r in enumerate(results):
+            if r is None or r[0] != "ok":
+                prob = {"stage": "import of participant %d" % i, "problem": "import raised %s" % (r[1] if r else "nothing"), "message": r[2] if r else ""}
+                break
+            if table_of(r[1]) != _REF:
+                prob = {"stage": "import of participant %d" % i, "problem": "timezone table differs from the one the source defines"}
+                break
+        if prob is None:
+            cache = os.path.join(dd, CACHE)
+            if not os.path.exists(cache):
+                prob = {"stage": "after both imports", "problem": "cache file missing"}
+            else:
+                try:
+                    if table_of_pickle(cache) != _REF:
+                        prob = {"stage": "after both imports", "problem": "cache on disk does not carry the reference table"}
+                except BaseException as e:  # noqa: BLE001
+                    prob = {"stage": "after both imports", "problem": "cache on disk unreadable (%s)" % type(e).__name__}
+            extra = set(os.listdir(dd)) - before - {CACHE}
+            if prob is None and extra:
+                prob = {"stage": "after both imports", "problem": "extra files left behind", "files": sorted(extra)}
+        return {"trace": [[en, ch, cur, lab] for en, ch, cur, lab in sched.trace], "problem": prob}
+    finally:
+        shutil.rmtree(d, ignore_errors=True)
+
+
+def _two_importers_task(task):
+    try:
+        name, files, prefix = task
+        r, w = os.pipe()
+        pid = os.fork()
+        if pid == 0:
+            try:
+                os.close(r)
+                try:
+                    out = _two_importers_child(files, prefix)
+                except BaseException:  # noqa: BLE001
+                    import traceback
+                    out = {"error": traceback.format_exc()}
+                with os.fdopen(w, "w") as f:
+                    json.dump(out, f)
+            finally:
+                os._exit(0)
+        os.close(w)
+        with os.fdopen(r) as f:
+            data = f.read()
+        os.waitpid(pid, 0)
+        if not data:
+            return {"error": "schedule child produced no result", "initial": name, "prefix": prefix}
+        out = json.loads(data)
+        out["initial"] = name
+        out["prefix"] = prefix
+        return out
+    except Exception:  # noqa: BLE001
+        import traceback
+        return {"error": traceback.format_exc()}
+
+
+def two_importers(initials, bound, jobs, ref, deadline_at):
+    """All schedules of two concurrent first imports with at most `bound` preemptions, per initial state.  Level-synchronous:
+    the alternatives of every executed schedule form the next level."""
+    from .. import iosched
+    ctx = mp.get_context("fork")
+    stats = {"schedules": 0, "bad": [], "per_initial": {}, "complete": True, "max_points": 0, "outcomes": {}}
+    with ctx.Pool(jobs, initializer=_init, initargs=(ref,)) as pool:
+        level = [(name, files, []) for name, files in initials]
+        seen = set()
+        while level:
+            nxt = []
+            for out in pool.imap_unordered(_two_importers_task, level, chunksize=1):
+                if "error" in out:
+                    pool.terminate()
+                    raise InfraError("two-importer schedule failed (%s, prefix %s): %s" % (out.get("initial"), out.get("prefix"), out["error"]))
+                stats["schedules"] += 1
+                name = out["initial"]
+                stats["per_initial"][name] = stats["per_initial"].get(name, 0) + 1
+                trace = [(tuple(en), ch, cur, lab) for en, ch, cur, lab in out["trace"]]
+                stats["max_points"] = max(stats["max_points"], len(trace))
+                okey = "ok" if out["problem"] is None else out["problem"]["problem"]
+                stats["outcomes"][okey] = stats["outcomes"].get(okey, 0) + 1
+                if out["problem"] is not None:
+                    stats["bad"].append({"initial": name, "choices": [t[1] for t in trace], "ops": [[t[1], t[3]] for t in trace], "problem": out["problem"]})
+                files = dict(initials)[name]
+                for alt in iosched.alternatives(trace, len(out["prefix"]), bound):
+                    key = (name, tuple(alt))
+                    if key not in seen:
+                        seen.add(key)
+                        nxt.append((name, files, alt))
+                if time.time() > deadline_at:
+                    pool.terminate()
+                    stats["complete"] = False
+                    return stats
+            level = nxt
+    return stats
+
+
 def subprocess_case(files):
     d = tempfile.mkdtemp(prefix="verif-c19s-", dir=SCRATCH)
     try:
@@ -497,6 +634,18 @@ def replay(rec):
     complete = contents[CACHE]
     label = rec["case"]["label"]
     meta = rec["case"]["meta"]
+    if label == "two-importers":
+        ini = rec["case"]["initial"]
+        files = {"missing": {}, "empty": {CACHE: b""}, "truncated": {CACHE: complete[:len(complete) // 2]}}[ini]
+        out = _two_importers_task((ini, files, list(rec["case"]["choices"])))
+        if "error" in out:
+            raise InfraError(out["error"])
+        v = out["problem"]
+        if v is None:
+            return None
+        return {"cls": {"family": meta["family"], "initial": ini, "stage": v["stage"].split(" of participant")[0], "problem": v["problem"]},
+                "expected": "both imports succeed; cache complete afterwards", "observed": v,
+                "detail": {"interleaving": [[t[1], t[3]] for t in out["trace"]]}}
     if label.startswith("concurrent:"):
         v = concurrent_case(ops, contents, meta["i"])
     elif label.startswith("subprocess:"):
